@@ -340,6 +340,8 @@ def check(rep, F, tier, replay=None):
                 extra_ = sorted(f for f in fields_ if f != "collateral")
                 if bad_ or extra_:
                     rep.violation("COLL-verbatim", "collateral|%s" % ",".join([H.short(b) for b in bad_] + extra_), "the body's collateral inputs pass through %s%s: the body can list fewer collateral inputs than collateral_return + total_collateral were computed over (the same UTxO as regular and collateral input: the body keeps the return and the total but not the input)" % (", ".join(bad_) or "no adapter", (" and depend on TransactionBuilder.%s" % ", ".join(extra_)) if extra_ else ""), {})
+    from ruleutil import minada_whole_rule
+    minada_whole_rule(rep, F)
     return rep.finish(
         EXPLANATION,
         ["min_ada_for_output is C07's concern", "BigNum::div_floor(100) is exact floor division (divisor constant non-zero)"],
